@@ -78,8 +78,52 @@ func VerifC08Graveyard() {
 			drain(x)
 		}
 	}
+	if vnd.Param("SCRIPT", 0) == 1 {
+		// concrete prefix: delete "a" while the iterators are open, then close all of
+		// them without giving the collector a chance to run
+		w := d.db.WriteTxn(t)
+		t.Delete(w, &vobj{id: []byte("a")})
+		committed.revs.Del([]byte("a"))
+		committed.rev++
+		w.Commit()
+		for _, x := range its {
+			x.it.Close()
+			x.open = false
+		}
+	}
 	for i := 0; i < N; i++ {
-		switch vnd.IntRange("step", 0, 4) {
+		switch vnd.IntRange("step", 0, vnd.Param("STEPMAX", 4)) {
+		case 5: // a new iterator is created
+			if len(its) >= 3 {
+				vnd.Assume(false)
+			}
+			w := d.db.WriteTxn(t)
+			it, err := t.Changes(w)
+			vnd.Assert(err == nil, "C08.changes.err")
+			w.Commit()
+			nx := &itstate{it: it, s: &c07state{d: d, committed: committed, replay: &vnd.Map{}}, open: true}
+			its = append(its, nx)
+			drain(nx) // learns the current objects
+			vnd.Cover("C08.new-iterator")
+		case 6: // an iterator catches up using an open write transaction that has a pending delete, which then commits
+			if len(its) == 0 {
+				vnd.Assume(false)
+			}
+			x := its[vnd.IntRange("it", 0, len(its)-1)]
+			if !x.open {
+				vnd.Assume(false)
+			}
+			k := []byte{byte('a' + vnd.IntRange("key", 0, 1))}
+			w := d.db.WriteTxn(t)
+			_, had, _ := t.Delete(w, &vobj{id: k})
+			seq, _ := x.it.Next(w)
+			x.s.consume(seq, -1)
+			w.Commit()
+			committed.revs.Del(k)
+			if had {
+				committed.rev++
+			}
+			vnd.Cover("C08.next-with-writetxn")
 		case 0, 1: // insert or delete one of two keys
 			k := []byte{byte('a' + vnd.IntRange("key", 0, 1))}
 			w := d.db.WriteTxn(t)
